@@ -34,10 +34,13 @@ def gen(tier, rng, harness=None):
         lines.append("!mod.closure2 - %s" % hx(t))
     # references by NUMBER across entities of other namespaces written in between (each with an ID of its own): `@1` is the second unnamed global
     from . import catalog
-    for name, text, frags in catalog.order_entries():
-        if name.startswith("numbering."):
+    for name, text, frags in catalog.order_entries() + catalog.layout_entries():
+        if name.startswith(("numbering.", "uint.md-id-use")):
             lines.append("!mod.keeps %s %s" % (hx("\x1f".join(frags or [])), hx(text)))
             lines.append("!mod.closure - %s" % hx(text))
+    # an explicit ID that reads as zero at a position that is not the first unnamed value (any spelling: `%0`, `%00`, `00:`) must be rejected, not renumbered
+    for kind, text in localgen.zero_spellings():
+        lines.append("!mod.mustfail - %s" % hx(text))
     for m, text, sk in modprops.gen_modules(rng, n):
         lines.append("mod.outcome %s %s" % (hx(sk), hx(text)))
         lines.append("mod.lists %s %s" % (hx(sk), hx(text)))
